@@ -32,6 +32,8 @@ pub struct Nlp {
     nump: u8,
 
     /// Node, lap and position of each player.
-    #[br(count = nump)]
+    // The packet is padded with 2 spare bytes when needed to keep its size a multiple of 4
+    #[br(count = nump, pad_after = (nump as usize % 2) * 2)]
+    #[bw(pad_after = (info.len() % 2) * 2)]
     pub info: Vec<NodeLapInfo>,
 }
